@@ -681,6 +681,7 @@ ssize_t __wrap_writev(int fd, const struct iovec *iov, int iovcnt)
 		f->blocked = 1;
 		f->neagain++;
 		if (taps_on) ds_printf(&wlog, "%s[%d,%zu,-%d]", wlog.len ? "," : "", fd, total, EAGAIN);
+		trace_ev("[\"w\",%d,%zu,-%d]", fd, total, EAGAIN);
 		errno = EAGAIN;
 		return -1;
 	}
@@ -695,6 +696,7 @@ ssize_t __wrap_writev(int fd, const struct iovec *iov, int iovcnt)
 		if (f->wbudget == 0) f->blocked = 1;
 	}
 	if (taps_on) ds_printf(&wlog, "%s[%d,%zu,%zu]", wlog.len ? "," : "", fd, total, take);
+	trace_ev("[\"w\",%d,%zu,%zu]", fd, total, take);
 	return (ssize_t)take;
 }
 
